@@ -6,6 +6,15 @@ from .errors import JSSyntaxError
 from .values import norm_number
 
 
+def _hex_value(text: str):
+    """Code point spelled by the hex digits of an escape, or None if they are not one
+    (int() would also take signs, spaces and underscores, and chr() has a range)."""
+    if not text or any(ch not in "0123456789abcdefABCDEF" for ch in text):
+        return None
+    value = int(text, 16)
+    return value if value <= 0x10FFFF else None
+
+
 def _is_digit(ch) -> bool:
     """ASCII decimal digit (str.isdigit also accepts superscripts and other scripts' digits)."""
     return bool(ch) and "0" <= ch <= "9"
@@ -105,6 +114,7 @@ class Lexer:
                 raise JSSyntaxError(
                     "Unterminated string literal", self.line, self.column
                 )
+            esc_line, esc_column = self.line, self.column  # where an escape would start
             ch = self._advance()
 
             if ch == "\\":
@@ -138,14 +148,12 @@ class Lexer:
                 elif escape == "x":
                     # Hex escape \xNN
                     hex_chars = self._advance() + self._advance()
-                    try:
-                        result.append(chr(int(hex_chars, 16)))
-                    except ValueError:
+                    code = _hex_value(hex_chars)
+                    if code is None or len(hex_chars) != 2:
                         raise JSSyntaxError(
-                            f"Invalid hex escape: \\x{hex_chars}",
-                            self.line,
-                            self.column,
+                            f"Invalid hex escape: \\x{hex_chars}", esc_line, esc_column
                         )
+                    result.append(chr(code))
                 elif escape == "u":
                     # Unicode escape \uNNNN or \u{N...}
                     if self._current() == "{":
@@ -158,14 +166,14 @@ class Lexer:
                         hex_chars = ""
                         for _ in range(4):
                             hex_chars += self._advance()
-                    try:
-                        result.append(chr(int(hex_chars, 16)))
-                    except ValueError:
+                    code = _hex_value(hex_chars)
+                    if code is None:
                         raise JSSyntaxError(
                             f"Invalid unicode escape: \\u{hex_chars}",
-                            self.line,
-                            self.column,
+                            esc_line,
+                            esc_column,
                         )
+                    result.append(chr(code))
                 else:
                     # Unknown escape - just use the character
                     result.append(escape)
